@@ -184,7 +184,10 @@ PROPS["C18"] = P([("gridfiles", "asan", 1200, 0.8), ("gridfiles", "fast", 500, 0
     "refinement radius inside / outside / at the ends of [R0,Rmax] and the CLI default 0, level caps; faults: open_fail, "
     "write_fail (ENOSPC/EIO), short_write, crash_after_write (clean or torn) at EVERY write index of small grids over the previous "
     "generation of the files, crash between the two files, truncate, torn last line, delete, empty, flipped byte, stale "
-    "generation, swapped files, appended garbage, nan/inf token, locale comma, read EIO, short reads",
+    "generation, swapped files, appended garbage, nan/inf token, locale comma, a line duplicated over its neighbour, a rewrite "
+    "with 1-4 significant digits, read EIO, short reads; user-supplied radii/angle vectors with one defect (repeated, swapped, "
+    "zero, negative, NaN radius; repeated/swapped/unpaired angle; missing 0 or 2*pi; too few entries; one-ulp gap); annuli so "
+    "thin that nodes collapse in double precision",
     "deterministic simulation with file-system fault injection (libc I/O seam) in the ASan+UBSan+assert build; validity "
     "invariants or exception; strict round trip when fault-free; enumerated crash points",
     "Accepted parameter sets must yield valid, nested, coarsenable grids with exactly R0/Rmax ends; rejected ones an exception "
@@ -193,7 +196,8 @@ PROPS["C18"] = P([("gridfiles", "asan", 1200, 0.8), ("gridfiles", "fast", 500, 0
     quick_runs=1700, quick_budget_s=120, thorough_budget_s=1500,
     expect_probes=["parameters_accepted", "parameters_rejected", "refinement_radius_outside_domain", "anisotropic",
                    "round_trip", "load_rejected", "load_accepted", "crash_points_enumerated", "levels_checked",
-                   "solver_loaded_grid", "nesting_checked", "explicit_grid_set_up", "explicit_grid_solved"])
+                   "solver_loaded_grid", "nesting_checked", "explicit_grid_set_up", "explicit_grid_solved",
+                   "vectors_rejected", "vectors_accepted", "fault:duplicate_line", "fault:coarse_precision"])
 PROPS["C20"] = P([("options", "asan", 1200, 0.4), ("options", "fast", 1200, 0.35), ("cli", "asan", 3000, 0.25)],
     "(a) option vectors through every public setter: all problem triples incl. Culham-free set, grids down to the smallest, "
     "anisotropic factor with refinement radius anywhere (incl. the CLI default 0), disabled tolerances, zero smoothing steps, zero "
@@ -202,12 +206,14 @@ PROPS["C20"] = P([("options", "asan", 1200, 0.4), ("options", "fast", 1200, 0.35
     "deterministic simulation in the ASan+UBSan+assert build (rejected-or-completes, no sanitizer/assert/deadlock) and "
     "memory-poison differential in the fast build (same plan under two heap/stack poison patterns => bit-identical statistics "
     "and solution)",
-    "Outcome must be an exception / non-zero exit or completion; every statistic must be finite/in range and independent of the "
+    "Outcome must be an exception / non-zero exit or completion; every statistic must be finite/in range, the mean reduction "
+    "factor must be (last/first)^(1/iterations) of the residual history whichever tolerance is enabled, and independent of the "
     "poison pattern (the deterministic stand-in for MemorySanitizer, which is not usable here).",
     quick_runs=5400, quick_budget_s=130, thorough_budget_s=1800,
     expect_probes=["completed", "rejected", "both_tolerances_disabled", "zero_iterations", "zero_smoothing_steps", "level_cap_2",
                    "take_without_caches", "poison_differential", "exit", "returned", "exception", "catalogue_supported",
-                   "catalogue_unsupported"])
+                   "catalogue_unsupported", "rho_checked", "rho_checked_relative_tolerance_disabled",
+                   "rho_checked_absolute_tolerance_disabled"])
 
 NOT_APPLICABLE = {
     "C16": "pure sequential function (A,b)->x: SparseLUSolver factorises in its constructor, solveInPlace is const; no schedule, clock, I/O, fault or history for a simulator to own (DESIGN.md 9.3)",
